@@ -35,8 +35,7 @@ def make_installation(gen, rnd, *, modes=None, fans=None, ac_ids=None, sensors=N
     if total > 16:
         zp = tuple([1] * n)
     inst = C.default_installation(gen, n, zp)
-    ids = list(ac_ids) if ac_ids else (sorted(rnd.sample(range(16), n)) if gen == 5
-                                       else list(range(n)))
+    ids = list(ac_ids) if ac_ids else sorted(rnd.sample(range(16 if gen == 5 else 4), n))
     fan_keys = [f.lower() for f in (FANS4 if gen == 4 else FANS5)]
     for i, a in enumerate(inst["acs"]):
         ab, st = a["ability"], a["status"]
